@@ -108,6 +108,13 @@ for _t in INTERP:
     FROM_TEXT.append("from t1 | derive {x = %s} | select {id, x}" % _t)
     FROM_TEXT.append(("from t1 | filter (%s) != null | select {id}" if _t.startswith("f") else "from t1 | sort {%s} | select {id}") % _t)
 
+# string escapes at their edges: \u{..} with 0..10 hex digits, surrogates, the largest code point, and the simple escapes
+ESCAPES = ['"\\u{}"', '"\\u{4}"', '"\\u{41}"', '"\\u{041}"', '"\\u{0041}"', '"\\u{00041}"', '"\\u{000041}"', '"\\u{0000041}"', '"\\u{00000041}"', '"\\u{0001F600}"',
+           '"\\u{1F600}"', '"\\u{10FFFF}"', '"\\u{110000}"', '"\\u{D800}"', '"\\u{DFFF}"', '"\\u{zz}"', '"\\u{41"', '"\\u41"', '"\\x41"', '"\\x4"', '"\\b\\f\\n\\r\\t\\/\\\\"',
+           '"\\q"', '"a\\\nb"', "'\\u{41}'", 'f"\\u{0000041}{s}"', 's"\\u{0000041}"']
+for _t in ESCAPES:
+    FROM_TEXT.append("from t1 | derive {x = %s} | select {id, x}" % _t)
+
 
 def programs():
     """-> list of (tag, source)"""
